@@ -111,6 +111,11 @@ thread_local! {
     static POOL_USED: std::cell::RefCell<Vec<usize>> = const { std::cell::RefCell::new(Vec::new()) };
 }
 
+/// forget which pool keys are taken: a new hierarchy is about to be generated
+pub fn reset_key_pool() {
+    POOL_USED.with(|u| u.borrow_mut().clear());
+}
+
 pub fn gen_keyspec(rng: &mut Rng, alg: u8, flags: u16, signs_keyset: bool, signs_data: bool) -> KeySpec {
     let mut alg = alg;
     let mut pick: Option<usize> = None;
@@ -229,7 +234,7 @@ fn marker_free_a(rng: &mut Rng) -> Vec<u8> {
     vec![192, 0, 2, rng.range(1, 250) as u8]
 }
 
-fn zone_content(rng: &mut Rng, apex: &Name, others: &[Name]) -> Zone {
+pub fn zone_content(rng: &mut Rng, apex: &Name, others: &[Name]) -> Zone {
     let mut z = Zone::new(apex);
     z.add(apex, ty::SOA, soa_rdata(apex, rng.range(1, 1000) as u32));
     let ns1 = child(b"ns1", apex);
@@ -263,7 +268,7 @@ fn zone_content(rng: &mut Rng, apex: &Name, others: &[Name]) -> Zone {
     z
 }
 
-fn gen_zone_keys(rng: &mut Rng, fake: bool) -> Vec<KeySpec> {
+pub fn gen_zone_keys(rng: &mut Rng, fake: bool) -> Vec<KeySpec> {
     if fake {
         return vec![gen_keyspec(rng, ALG_FAKE, 257, true, false), gen_keyspec(rng, ALG_FAKE, 256, false, true)];
     }
@@ -299,6 +304,62 @@ pub fn ds_rdata(owner: &Name, key: &Key, digest_type: u8, rng: &mut Rng) -> Vec<
         None => v.extend(rng.bytes(32)),
     }
     v
+}
+
+/// The DS RRset the parent publishes for a child with key set `keys` hanging off it in link mode
+/// `base_mode` (see `LINK_MODES`; empty for "no-ds" / "island").
+pub fn delegation_ds(rng: &mut Rng, apex: &Name, base_mode: &str, keys: &[KeySpec]) -> Vec<Vec<u8>> {
+    let built: Vec<Key> = keys.iter().map(Key::build).collect();
+    let ksk = built.iter().find(|k| k.spec.signs_keyset);
+    let mut ds: Vec<Vec<u8>> = Vec::new();
+    match base_mode {
+        "ds-good" => {
+            let k = ksk.unwrap();
+            ds.push(ds_rdata(apex, k, *rng.pick(&[2u8, 2, 2, 4, 1]), rng));
+            if rng.chance(1, 4) {
+                ds.push(ds_rdata(apex, k, 4, rng));
+            }
+        }
+        "ds-mixed" => {
+            let k = ksk.unwrap();
+            ds.push(ds_rdata(apex, k, 2, rng));
+            // a DS of an algorithm / digest the validator does not know
+            let mut v = rng.u16().to_be_bytes().to_vec();
+            v.push(ALG_FAKE);
+            v.push(2);
+            v.extend(rng.bytes(32));
+            ds.push(v);
+            if rng.bool() {
+                ds.push(ds_rdata(apex, k, DIGEST_UNSUPPORTED, rng));
+            }
+        }
+        "ds-standby" => {
+            let k = ksk.unwrap();
+            ds.push(ds_rdata(apex, k, 2, rng));
+            // DS for a key that is not (yet) in the DNSKEY RRset, or for a published stand-by KSK
+            if let Some(sb) = built.iter().find(|k| k.spec.flags == 257 && !k.spec.signs_keyset) {
+                ds.push(ds_rdata(apex, sb, 2, rng));
+            } else {
+                let pre = Key::build(&gen_keyspec(rng, 15, 257, false, false));
+                ds.push(ds_rdata(apex, &pre, 2, rng));
+            }
+        }
+        "ds-unsupported-alg" => {
+            let k = ksk.unwrap();
+            ds.push(ds_rdata(apex, k, 2, rng));
+        }
+        "ds-unsupported-digest" => {
+            let k = ksk.unwrap();
+            ds.push(ds_rdata(apex, k, DIGEST_UNSUPPORTED, rng));
+        }
+        "ds-stale" => {
+            // the parent still lists a key the child no longer has
+            let old = Key::build(&gen_keyspec(rng, 15, 257, true, false));
+            ds.push(ds_rdata(apex, &old, 2, rng));
+        }
+        _ => {} // no-ds, island
+    }
+    ds
 }
 
 /// Generate one hierarchy. `idx` rotates the link mode of the first leaf so that all classes are
@@ -403,56 +464,7 @@ pub fn gen_hier(rng: &mut Rng, idx: u64, collision: Option<&Collision>, attacker
         let apex = apexes[i].clone();
         let mode = zones[i].mode.clone();
         let base_mode = mode.split('+').next().unwrap().to_string();
-        let built: Vec<Key> = zones[i].keys.iter().map(Key::build).collect();
-        let ksk = built.iter().find(|k| k.spec.signs_keyset);
-        let mut ds: Vec<Vec<u8>> = Vec::new();
-        match base_mode.as_str() {
-            "ds-good" => {
-                let k = ksk.unwrap();
-                ds.push(ds_rdata(&apex, k, *rng.pick(&[2u8, 2, 2, 4, 1]), rng));
-                if rng.chance(1, 4) {
-                    ds.push(ds_rdata(&apex, k, 4, rng));
-                }
-            }
-            "ds-mixed" => {
-                let k = ksk.unwrap();
-                ds.push(ds_rdata(&apex, k, 2, rng));
-                // a DS of an algorithm / digest the validator does not know
-                let mut v = rng.u16().to_be_bytes().to_vec();
-                v.push(ALG_FAKE);
-                v.push(2);
-                v.extend(rng.bytes(32));
-                ds.push(v);
-                if rng.bool() {
-                    ds.push(ds_rdata(&apex, k, DIGEST_UNSUPPORTED, rng));
-                }
-            }
-            "ds-standby" => {
-                let k = ksk.unwrap();
-                ds.push(ds_rdata(&apex, k, 2, rng));
-                // DS for a key that is not (yet) in the DNSKEY RRset, or for a published stand-by KSK
-                if let Some(sb) = built.iter().find(|k| k.spec.flags == 257 && !k.spec.signs_keyset) {
-                    ds.push(ds_rdata(&apex, sb, 2, rng));
-                } else {
-                    let pre = Key::build(&gen_keyspec(rng, 15, 257, false, false));
-                    ds.push(ds_rdata(&apex, &pre, 2, rng));
-                }
-            }
-            "ds-unsupported-alg" => {
-                let k = ksk.unwrap();
-                ds.push(ds_rdata(&apex, k, 2, rng));
-            }
-            "ds-unsupported-digest" => {
-                let k = ksk.unwrap();
-                ds.push(ds_rdata(&apex, k, DIGEST_UNSUPPORTED, rng));
-            }
-            "ds-stale" => {
-                // the parent still lists a key the child no longer has
-                let old = Key::build(&gen_keyspec(rng, 15, 257, true, false));
-                ds.push(ds_rdata(&apex, &old, 2, rng));
-            }
-            _ => {} // no-ds, island
-        }
+        let ds = delegation_ds(rng, &apex, &base_mode, &zones[i].keys);
         let ns = refzone::rd_name(&child(b"ns1", &apex));
         zones[p].zone.add(&apex, ty::NS, ns);
         for d in ds {
@@ -497,7 +509,8 @@ pub struct BZone {
 pub struct Truth {
     pub hier: Hier,
     pub zones: Vec<BZone>,
-    /// (algorithm, public key) of the configured trust anchor: the root's first keyset-signing key
+    /// (algorithm, public key) of the configured trust anchor: the first keyset-signing key of the
+    /// top zone (`zones[0]`: the root, or the anchored non-root zone of an island world)
     pub anchor: (u8, Vec<u8>),
 }
 
@@ -582,6 +595,17 @@ impl Truth {
         } else {
             Status::Bogus
         }
+    }
+
+    /// apex of the zone whose keyset-signing key is the configured trust anchor: the root in the
+    /// root-anchored worlds, a non-root name in the anchored-island worlds (`isl.rs`)
+    pub fn anchor_apex(&self) -> &Name {
+        &self.zones[0].apex
+    }
+
+    /// does `n` lie at or below the trust anchor? (always true in the root-anchored worlds)
+    pub fn under_anchor(&self, n: &[Vec<u8>]) -> bool {
+        is_subdomain(&fold(n), &self.zones[0].apex)
     }
 
     /// deepest zone whose apex is an ancestor-or-self of `n`
